@@ -92,7 +92,7 @@ func ReturnsMatching(fn *ssa.Function, idx int, pattern string) []*ssa.Return {
 	rx := re(pattern)
 	for _, b := range fn.Blocks {
 		if ret, ok := b.Instrs[len(b.Instrs)-1].(*ssa.Return); ok && idx < len(ret.Results) {
-			if rx.MatchString(Desc(ret.Results[idx])) {
+			if rx.MatchString(Desc(RetResults(ret)[idx])) {
 				out = append(out, ret)
 			}
 		}
@@ -134,7 +134,7 @@ func ReturnPaths(fn *ssa.Function, idx int, pred func(v ssa.Value) bool) []retPa
 			}
 			out = append(out, retPath{ret, v, impliedFromGuards(gs, 2)})
 		}
-		rec(ret.Results[idx], b, nil, 4)
+		rec(RetResults(ret)[idx], b, nil, 4)
 	}
 	return out
 }
